@@ -157,12 +157,17 @@ def run(R, env):
         ch = lambda t: msg_field(t, "SpendFunds", "channel_id")
         rcv = lambda t: msg_field(t, "SpendFunds", "receiver")
         amt_ = lambda t: msg_field(t, "SpendFunds", "amount")
+        def is_addr_validator(s):
+            # role, not name: a local two-argument function that bech32-decodes (its shape is checked below)
+            cb = shared._body_of_call(prog, s)
+            return cb is not None and cb.kind == "fn" and cb.nargs == 2 and any((call_name(t_) or "").startswith("bech32::decode") for _, t_ in cb.calls())
+
         for want, name in ((False, "local"), (True, "ibc")):
             rem, n = world_edges(h, ch, want)
             w = h.with_removed(rem).settle()
             R.worlds += 1
             R.ob("C13.R4", "SpendFunds:%s:tests" % name, n >= 1, "no test of channel_id found", fn=hk)
-            G = Guard("receiver-prefix", subject=lambda s, name=name: s[0] == "call" and s[1].endswith("validate_address") and len(s[2]) == 2 and rcv(s[2][0]) and s[2][1] == ("const", "str", PREFIX[name]))
+            G = Guard("receiver-prefix", subject=lambda s, name=name: s[0] == "call" and is_addr_validator(s) and len(s[2]) == 2 and rcv(s[2][0]) and s[2][1] == ("const", "str", PREFIX[name]))
             found = []
             ok, off = guarded(w, G, prog, env.depth, found)
             R.ob("C13.R4", "SpendFunds:%s:receiver-validated" % name, ok, "a %s spend succeeds without validate_address(receiver, \"%s\"): %s" % (name, PREFIX[name], off), fn=hk, found=found)
